@@ -2,9 +2,19 @@ import UtilModel.Lemmas.JsonTokens
 import UtilModel.Lemmas.SizeLimit
 /-!
 # The JSON object reader of package `size`: decoder-state invariants, totality, form gating
+
+* 1(d) `skipLoop_restores`, `decodeAndSkipNested_restores`: skipping the value of an unknown member, of
+  any nesting depth, fails or returns with `st = objectComma` and the stack as before the member.
+* 2 `objectLoop_ne_panic` (invariant `AtMember`: at the top of every round `st ∈ {objectStart,
+  objectComma}`), `unmarshalJSON_ne_panic`, `parse_ne_panic`; `objectLoop_final`: where a successful
+  loop stops.
+* 3/4 form gating (`parse_text_mode`, `parse_json_mode`, `unmarshalJSON_*`), `expectEOF_ok_iff`,
+  `number_form`, `string_form`.
+* 5 `unmarshalJSON_consumed`, `unmarshalJSON_trailing` (with `*_suffix`: the decoder only moves forward).
 -/
 namespace U.SizeObject
 open U U.GoJson U.JsonTokens U.Size
+open U.Props.C12 (allSpace restAfterValue)
 
 /-- the depth counter of `decodeAndSkipNested` after a token -/
 def depthAfter (t : Tok) (depth : Nat) : Int :=
@@ -584,21 +594,6 @@ theorem objectLoop_suffix {mk : Nat} {du : Bool} {f i : Nat} {d : Dec} {v : Opti
         · simp at h
 
 /-! ## exactly one value -/
-
-/-- the input left in the decoder after `unmarshalJSON` has read the value and, for an object, its
-closing brace; `none` if the value is not read to its end -/
-def restAfterValue (mk : Nat) (r : Rule) (s : Bytes) : Option Bytes :=
-  match (Dec.init s).token with
-  | .error _ => none
-  | .ok (.delim c, d) =>
-    if c != 123 then none
-    else match objectLoop mk r.disallowUnknown (s.length + 2) 0 d none none with
-      | .ok (_, d1) =>
-        match d1.token with
-        | .ok (.delim 125, d2) => some d2.rest
-        | _ => none
-      | _ => none
-  | .ok (_, d) => some d.rest
 
 /-- 5: acceptance means the whole input was consumed: the value was read to its end (an object up to
 and including its `}`), what is left is a proper suffix of the input, and it is only white space -/
